@@ -110,15 +110,23 @@ def bindRow (env : Env) : List String → List Int → Except IErr Env
     let env' ← bindRow env vs xs
     pure (if v == "_" then env' else (v, x) :: env')
 
-/-- `recursive_set_resolver`: the leaf callback runs once per combination, first iterator outermost -/
-def iterate {β : Type} (k : Env → Except IErr β) : List It → Env → Except IErr (List β)
-  | [], env => do pure [← k env]
+/-- `recursive_set_resolver`, the environments of the leaf calls: one per combination of iteration
+values, first iterator outermost, in the order of the iterables.  (The Rust interleaves the leaf
+callback with the enumeration; the callback does not touch the bindings, so the results — and whether
+anything fails — are the same; which error is reported first is not modelled.) -/
+def envs : List It → Env → Except IErr (List Env)
+  | [], env => .ok [env]
   | it :: rest, env => do
     if !it.shapeOk then throw .destructure
     declareAll env it.vars
     let rows ← it.src.rows env
-    let parts ← mapE (fun row => do iterate k rest (← bindRow env it.vars row)) rows
+    let parts ← mapE (fun row => do envs rest (← bindRow env it.vars row)) rows
     pure parts.flatten
+
+/-- the leaf callback `k` applied to every environment, results in iteration order -/
+def iterate {β : Type} (k : Env → Except IErr β) (its : List It) (env : Env) : Except IErr (List β) := do
+  let es ← envs its env
+  mapE k es
 
 section expand
 variable {α : Type} [Arith α]
